@@ -322,6 +322,7 @@ def run(ctx):
         if j % 6 == 0:       # all events in one cell
             case["ev_cell"] = [case["ev_cell"][0]] * len(case["ev_cell"])
             case["ev_mag"] = [case["ev_mag"][0]] * len(case["ev_mag"])
+            case["magoff"] = [min(0.9, case["magoff"][0])] * len(case["ev_mag"]) if case["ev_mag"][0] != case["nmag"] - 1 else [case["magoff"][0]] * len(case["ev_mag"])
         A = numpy.array(case["rates"])
         kind = j % 5
         if kind == 4:
